@@ -92,7 +92,7 @@ fn w_kill() {
 fn w_reset_sigpipe() {
     unsafe {
         m::MASK_EMPTY = kani::any();       // whatever the spawning thread had blocked
-        m::SIGPIPE_DEFAULT = false;        // the Rust runtime ignores SIGPIPE in the parent
+        m::SIGPIPE_DEFAULT = false;        // whatever the parent had for SIGPIPE (the model's signal() returns any previous disposition)
     }
     let r = reset_sigpipe();
     unsafe {
@@ -202,7 +202,7 @@ fn w_pipe() {
 #[kani::proof]
 #[kani::stub(crate::posix::check_err, model_check_err)]
 fn w_fork_ids() {
-    unsafe { m::FORK_CALLS = 0; m::LAST_SETUID = (0, 0); m::LAST_SETGID = (0, 0); m::LAST_SETPGID = (0, 0, 0); }
+    unsafe { m::FORK_CALLS = 0; m::LAST_SETUID = (0, 0); m::LAST_SETGID = (0, 0); m::LAST_SETPGID = (0, 0, 0); m::OTHER_ID_CALLS = 0; }
     let r = unsafe { fork() };
     unsafe {
         assert!(m::FORK_CALLS == 1);
@@ -220,6 +220,8 @@ fn w_fork_ids() {
     let rp = setpgid(p, pg);
     unsafe {
         assert!(m::LAST_SETUID == (1, u) && m::LAST_SETGID == (1, g) && m::LAST_SETPGID == (1, p as i32, pg as i32));
+        // the whole identity is changed (setuid/setgid as root set real, effective and saved ids): no partial variant is used
+        assert!(m::OTHER_ID_CALLS == 0);
     }
     kani::cover!(ru.is_ok() && rg.is_err() && rp.is_ok());
 }
